@@ -114,6 +114,8 @@ type decoderState struct {
 	pending  Value // unread content
 	eof      bool
 	stickErr *Iface
+	stickHit int // Decode calls answered from the sticky error
+	maxToken int // bufio.Scanner token limit (0 = bufio.MaxScanTokenSize)
 }
 
 func init() {
@@ -182,6 +184,14 @@ func init() {
 		p := nilCheck(fr, site, a[0])
 		st := engState[decoderState](ex, "jsondec", p)
 		if st.stickErr != nil {
+			// A loop that keeps calling Decode after a sticky error makes no progress: after the third
+			// identical answer the calling goroutine is treated as spinning forever (it never blocks and
+			// never does anything else), which the engine represents by parking it.
+			st.stickHit++
+			if st.stickHit >= 3 && !ex.isEOF(*st.stickErr) {
+				ex.spins = append(ex.spins, "busy loop on a sticky json.Decoder error at "+ex.site(site))
+				ex.blockUntil(func() bool { return false }, "spinning on sticky decoder error", site)
+			}
 			return *st.stickErr
 		}
 		// a decoder consumes one JSON value per Decode; sources deliver one value per chunk
@@ -225,7 +235,13 @@ func init() {
 		engState[decoderState](ex, "bufio", p).src = a[0].(Iface)
 		return p
 	})
-	reg("(*bufio.Scanner).Buffer", func(ex *Exec, fr *Frame, site ssa.Instruction, a []Value) Value { return nil })
+	reg("(*bufio.Scanner).Buffer", func(ex *Exec, fr *Frame, site ssa.Instruction, a []Value) Value {
+		p := nilCheck(fr, site, a[0])
+		if m, ok := a[2].(*Term).BVVal(); ok {
+			engState[decoderState](ex, "bufio", p).maxToken = int(int64(m))
+		}
+		return nil
+	})
 	reg("(*bufio.Scanner).Scan", func(ex *Exec, fr *Frame, site ssa.Instruction, a []Value) Value {
 		p := nilCheck(fr, site, a[0])
 		st := engState[decoderState](ex, "bufio", p)
@@ -243,6 +259,16 @@ func init() {
 		}
 		// strip trailing \r
 		line = ex.stripCR(line, site)
+		// token limit (bufio.MaxScanTokenSize unless Buffer was called): decidable for concrete-length lines
+		limit := st.maxToken
+		if limit == 0 {
+			limit = 64 * 1024
+		}
+		if n, ok := ex.concreteStrLen(line); ok && n >= limit {
+			e := ex.makeError(mkStr("bufio.Scanner: token too long"))
+			st.stickErr = &e
+			return tFalse
+		}
 		ex.hctxSet(p, "scanText", line)
 		return tTrue
 	})
@@ -667,4 +693,14 @@ func (ex *Exec) parseQuery(fr *Frame, site ssa.Instruction, rq Value) Value {
 		}
 	}
 	panic(unsupported("symbolic query string " + valString(t)))
+}
+
+// concreteStrLen: the byte length of a string value when it is fully concrete.
+func (ex *Exec) concreteStrLen(v Value) (int, bool) {
+	if t, ok := v.(*Term); ok {
+		if s, ok := t.StrVal(); ok {
+			return len(s), true
+		}
+	}
+	return 0, false
 }
